@@ -3,10 +3,14 @@
   lines printed by harness/c11_gkf.cpp, and the literal recognisers of Model/Literals.lean.
   Input lines (see the harness):  start <hexname> <line> <d> [<hexattr>[!]]… | stop <line> <d> |
   text <line> <hex> | end | lit <hex> | enum <hexalphabet> <n> | cov <dim> <band> <hex>
+  and, for Gama.Gkf.crun (Model/GkfValues.lean: the value checks computed from the real attribute strings):
+  C start <hexname> <line> [<hexattr>=<hexvalue>]… | C stop <line> <pd> | C text <line> <hex> | cend
+  (answers `VR <state> <kind>` / `VO …`, to be equal to the harness' `R` / `O` lines)
 -/
 import Gama.Proto
 import Gama.Model.GkfRun
 import Gama.Model.GkfCov
+import Gama.Model.GkfValues
 open Gama Gama.Proto Gama.Gkf
 
 def unhex (s : String) : Option (List Char) :=
@@ -36,6 +40,8 @@ def parseAttr (tok : String) : Option Attr :=
 structure DSt where
   st : St := St.init
   lines : Array Nat := #[]
+  cs : CSt := CSt.init
+  clines : Array Nat := #[]
 
 def stateIdx (s : State) : Nat := State.all.idxOf s
 
@@ -47,7 +53,19 @@ def emit (old new : St) : String :=
 
 def feed (d : DSt) (line : Nat) (e : Event) : DSt × String :=
   let st' := step d.st e
-  ({ st := st', lines := d.lines.push line }, emit d.st st')
+  ({ d with st := st', lines := d.lines.push line }, emit d.st st')
+
+def parseCAttr (tok : String) : Option CAttr :=
+  match tok.splitOn "=" with
+  | [a, b] => do
+    let n ← unhex a
+    let v ← unhex b
+    pure ⟨String.ofList n, v⟩
+  | _ => none
+
+def cfeed (d : DSt) (line : Nat) (e : CEvent) : DSt × String :=
+  let cs' := cstep d.cs e
+  ({ d with cs := cs', clines := d.clines.push line }, "V" ++ emit d.cs.st cs'.st)
 
 def flag? (s : String) : Option Bool := if s == "1" then some true else if s == "0" then some false else none
 
@@ -94,6 +112,23 @@ def stepLine (d : DSt) (line : String) : DSt × String :=
     match ln.toNat?, unhex hx with
     | some l, some cs => feed d l (.text cs)
     | _, _ => (d, "bad-op")
+  | "C" :: "start" :: name :: ln :: attrs =>
+    match unhex name, ln.toNat?, attrs.mapM parseCAttr with
+    | some nm, some l, some as => cfeed d l (.start (tagOf nm) as)
+    | _, _, _ => (d, "bad-op")
+  | ["C", "stop", ln, pd] =>
+    match ln.toNat?, flag? pd with
+    | some l, some ok => cfeed d l (.stop ok)
+    | _, _ => (d, "bad-op")
+  | ["C", "text", ln, hx] =>
+    match ln.toNat?, unhex hx with
+    | some l, some cs => cfeed d l (.text cs)
+    | _, _ => (d, "bad-op")
+  | ["cend"] =>
+    match outcome d.cs.st with
+    | .accepted => (d, "VO ok")
+    | .refused none => (d, "VO parser 0 -1")
+    | .refused (some (i, _)) => (d, s!"VO parser {d.clines[i]?.getD 0} -1")
   | ["end"] =>
     match outcome d.st with
     | .accepted => (d, "O ok")
